@@ -288,16 +288,29 @@ class CompSX:
         with patched():
             return getattr(self.comp, method)(*args, **kw)
 
+    @staticmethod
+    def _run(fn):
+        """run a real method under the shim; a symbolic comparison used to index a concrete array cannot stay symbolic:
+        switch (for the rest of the job) to deciding array comparisons element by element, i.e. to a path split"""
+        try:
+            with patched():
+                fn()
+        except IndexError as e:
+            if "arrays used as indices" not in str(e) or S.EAGER_MASKS[0]:
+                raise
+            S.EAGER_MASKS[0] = True
+            with patched():
+                fn()
+
     def compute(self, ins, outs=None, havoc=None):
         if outs is None:
             outs = self.out_container(havoc)
         ins.read_only = True
         try:
-            with patched():
-                if self.comp._discrete_inputs or self.comp._discrete_outputs:
-                    self.comp.compute(ins, outs, self.comp._discrete_inputs, self.comp._discrete_outputs)
-                else:
-                    self.comp.compute(ins, outs)
+            if self.comp._discrete_inputs or self.comp._discrete_outputs:
+                self._run(lambda: self.comp.compute(ins, outs, self.comp._discrete_inputs, self.comp._discrete_outputs))
+            else:
+                self._run(lambda: self.comp.compute(ins, outs))
         finally:
             ins.read_only = False
         return outs
@@ -307,11 +320,10 @@ class CompSX:
             jac = self.new_jac()
         ins.read_only = True
         try:
-            with patched():
-                if self.comp._discrete_inputs:
-                    self.comp.compute_partials(ins, jac, self.comp._discrete_inputs)
-                else:
-                    self.comp.compute_partials(ins, jac)
+            if self.comp._discrete_inputs:
+                self._run(lambda: self.comp.compute_partials(ins, jac, self.comp._discrete_inputs))
+            else:
+                self._run(lambda: self.comp.compute_partials(ins, jac))
         finally:
             ins.read_only = False
         return jac
